@@ -479,6 +479,22 @@ func cutCheck(c *Ctx, op string, sent [][]byte, bounds []int) {
 			undecodable = true // the toy codec rejects these: the stream ends there with invalid_argument
 		}
 	}
+	if sent == nil { // replay: look at the frames themselves
+		for rest := flat; len(rest) >= 5; {
+			n := int(rest[1])<<24 | int(rest[2])<<16 | int(rest[3])<<8 | int(rest[4])
+			if len(rest) < 5+n {
+				break
+			}
+			p := rest[5 : 5+n]
+			if rest[0]&1 != 0 {
+				p, _ = rleExpand(p, 1<<20)
+			}
+			if len(p) > 0 && p[0] == 0xEE {
+				undecodable = true
+			}
+			rest = rest[5+n:]
+		}
+	}
 	if !cleanEnd && atBoundary && a["tail"] == "eof" && atoi(a["max"]) == 0 && !undecodable {
 		c.Fail("boundary-not-clean", op, ans, "a stream that ends cleanly at a frame boundary must end with the EOF-wrapping error")
 	}
@@ -506,6 +522,10 @@ func frameBoundary(flat []byte) bool {
 // S-lim (C09, envelope level): limit N, sizes around it, lying prefixes, expanding payloads.
 func streamLimit(c *Ctx) {
 	if replayOp != "" {
+		if strings.HasPrefix(replayOp, "rlim ") { // emitted by the option-order probes: run them again
+			readLimitOptionOrderProbes(c, "limit-within-rejected")
+			return
+		}
 		limitCheck(c, replayOp)
 		return
 	}
@@ -887,6 +907,13 @@ func readLimitOptionOrderProbes(c *Ctx, key string) {
 					if got != want {
 						c.Fail(key, desc, got, "the last WithReadMaxBytes given is the limit: want "+want)
 					}
+					if key == "limit-within-rejected" { // once per run: also against the model's option fold
+						var ls []string
+						for _, n := range t.limits {
+							ls = append(ls, strconv.Itoa(n))
+						}
+						c.Emit(fmt.Sprintf("rlim side=%s proto=%s nested=%d limits=%s size=1000", side, proto, b2i(nested), strings.Join(ls, ",")), got, true)
+					}
 				}
 			}
 		}
@@ -1040,6 +1067,13 @@ func rleExpand(z []byte, cap int) ([]byte, bool) {
 // compression threshold, zero-length messages anywhere, any segmentation.
 func streamRoundtrip(c *Ctx) {
 	if replayOp != "" {
+		if strings.HasPrefix(replayOp, "env.recv") {
+			// a phantom-frame op: one real message, then a frame that announces more than is there
+			if ans := envOp(c, replayOp); ans != "m:07 e:3:0" {
+				c.Fail("roundtrip-phantom-message", replayOp, ans, "an envelope announcing more bytes than the stream carries must fail, without yielding a message")
+			}
+			return
+		}
 		roundtripCheck(c, replayOp)
 		return
 	}
